@@ -199,7 +199,14 @@ func mergeReports(rs []*Report) *Report {
 		out.NSat += r.NSat
 		out.NUnsat += r.NUnsat
 		out.NUnknown += r.NUnknown
-		out.SolverTime += r.SolverTime
+		out.SolverTime += r.SolverTime + r.PortfolioTime
+		out.PortfolioQueries += r.PortfolioQueries
+		for k, v := range r.PortfolioWins {
+			if out.PortfolioWins == nil {
+				out.PortfolioWins = map[string]int{}
+			}
+			out.PortfolioWins[k] += v
+		}
 		out.Terms += r.Terms
 		for _, f := range r.Failures {
 			dup := false
